@@ -35,7 +35,7 @@ Definition buckets (B:nat) (l:list line) : list (list line) :=
   match B with O => [] | _ => buckets_fuel (length l) B l end.
 Definition sum_N (l:list N) : N := fold_right N.add 0%N l.
 Definition col_sums (p:nat) (g:list (list byte)) : list N :=
-  fold_left (fun acc pay => map (fun x => (fst x + Byte.to_N (snd x))%N) (combine acc pay)) g (repeat 0%N p).
+  fold_left (fun acc pay => map (fun x => (fst x + rs_dec (snd x))%N) (combine acc pay)) g (repeat 0%N p).
 (* the mean of a bucket under the byte-wise integer resampler used by harness and model *)
 Definition bucket_mean (p:nat) (g:list line) : line :=
   let n := N.of_nat (length g) in
